@@ -984,6 +984,14 @@ func (s *PrintCtx) pcAppendQuotedStringValue(str string) {
 }
 
 func (s *PrintCtx) appendQuotedString(str string) {
+	if s.jsonMode {
+		// Go escapes such as \x01, \a or \U0001f600 are not JSON
+		s.PreAlloc(len(str) + 2)
+		s.pcAppendByte('"')
+		s.appendEscapedJSONString(str)
+		s.pcAppendByte('"')
+		return
+	}
 	s.PreAlloc(len(str)*2 + 2)
 	s.buf = appendQuotedWith(s.buf, str, '"', false, false)
 }
@@ -1150,7 +1158,7 @@ func (s *PrintCtx) pcAppendStringKey(str string) {
 		// s.WriteString(strconv.Quote(str))
 		// s.Grow(2 + len([]byte(str)))
 		s.checkerr(s.WriteByte('"'))
-		_, _ = s.WriteString(str)
+		s.appendEscapedJSONString(str)
 		s.checkerr(s.WriteByte('"'))
 	} else {
 		_, _ = s.WriteString(str)
